@@ -175,6 +175,9 @@ pub fn alphabet(c: &CmdSpec) -> Vec<Vec<u8>> {
         if a.is_positional() {
             if a.delimiter.is_some() {
                 add(b"w,x".to_vec());
+                // boundary shapes: a value that ends in the delimiter, a lone delimiter
+                add(b"w,".to_vec());
+                add(b",".to_vec());
             }
             continue;
         }
@@ -196,8 +199,10 @@ pub fn alphabet(c: &CmdSpec) -> Vec<Vec<u8>> {
         }
         if a.delimiter.is_some() {
             add(b"w,x".to_vec());
+            add(b"w,".to_vec());
             if let Some(l) = &a.long {
                 add(format!("--{}=w,x", l).into_bytes());
+                add(format!("--{}=w,", l).into_bytes());
             }
         }
         for al in &a.aliases {
